@@ -12,7 +12,7 @@ RULE = ("mode 1: KeyExchange::modexp on boundary and random operands (base 0,1,p
         "real Nodes built from generated identity seeds and peer ids handshake with each other through "
         "generate_handshake_work / perform_handshake and both session keys are read back (the scalars the nodes drew are "
         "predicted by a python mt19937 + libstdc++ uniform_int_distribution and read back through the friend class); mode 4: "
-        "validate_public around 0,1,2,p-1,p,p+1,2^32-1; mode 5: derive_shared_secret with remote publics >= p (reduction); mode 6: a node handshakes with a peer, the peer restarts under the same peer id with a new identity seed and, an hour later (past the cool-down), both handshake again. "
+        "validate_public around 0,1,2,p-1,p,p+1,2^32-1 and on values above p (p+2, 2p-1, 2p, 2^31+x, random); mode 5: derive_shared_secret with remote publics >= p (reduction); mode 6: a node handshakes with a peer, the peer restarts under the same peer id with a new identity seed and, an hour later (past the cool-down), both handshake again. "
         "Oracle (independent of the model): python pow(), hashlib, hmac -- publics are 5^a mod p, both ends hold the same key, "
         "the key is HMAC(SHA256(be32(5^(ab) mod p)), be32(min pub) || be32(max pub)), validate accepts exactly 1 < c < p. "
         "non-trivial = modes 2/3 with both publics valid; distinct = distinct implementation outputs")
@@ -83,7 +83,9 @@ def generate(rng, tier):
     for a in scal:
         for b in scal:
             cases.append({"ints": [2, a, b], "tag": "dh-boundary"})
-    for c in [0, 1, 2, 3, P - 2, P - 1, P, P + 1, 2 ** 32 - 1, 2 ** 31]:
+    # also values above p whose residue mod p is an ordinary key: p + 2, p + 3, 2p - 1, 2p, 2^31 + x, anything in (p, 2^32)
+    for c in [0, 1, 2, 3, P - 2, P - 1, P, P + 1, 2 ** 32 - 1, 2 ** 31, P + 2, P + 3, 2 * P - 1, 2 * P, 2 ** 32 - 3, 2 ** 31 + 5, 0xC0000000, 0xDEADBEEF] \
+            + [rng.randrange(P + 2, 2 ** 32 - 2) for _ in range(12)] + [rng.randrange(2, P) for _ in range(6)]:
         cases.append({"ints": [4, c], "tag": "validate"})
     for i in range(n):
         r = rng.random()
